@@ -258,6 +258,19 @@ def tagAcceptSpec (accept : Nat) (uncertain matching : Bool) : Bool :=
     | false, true => 1 | false, false => 2 | true, true => 4 | true, false => 8
   accept &&& bit != 0
 
+/-- `Conditions.inlineTagFilter` (internal/query/conditions.go) seen from one stream, for ONE tag filter with accept
+    mask `accept` on a tag that has undecided streams (`tagHasUndecided`): a mask that accepts both or neither of
+    the undecided states is kept; a mask with exactly one undecided bit is replaced by two alternatives — the
+    decided part of the mask (`accept &&& 3`), or "undecided (mask 12) and the tag's definition holds" (the
+    definition negated when the mask accepts undecided-failing only). `recorded` is the answer stored for the
+    stream, `defTruth` what the tag's definition says about it now. -/
+def inlinedAccept (tagHasUndecided : Bool) (accept : Nat) (uncertain recorded defTruth : Bool) : Bool :=
+  let unc := accept &&& 12
+  if !tagHasUndecided || unc = 0 || unc = 12 then tagAccept accept uncertain recorded
+  else
+    tagAccept (accept &&& 3) uncertain recorded ||
+      (tagAccept 12 uncertain recorded && (if unc = 8 then !defTruth else defTruth))
+
 /-- `TimeCondition` filter for the main query (616–623), everything in ns as integers:
     `d = Duration + (f+l)*(r.ReferenceTime - refTime) + f*FirstPacketTimeNS + l*LastPacketTimeNS ≥ 0` -/
 def timeFilter (duration f l refTime fileRef firstNS lastNS : Int) : Bool :=
